@@ -37,6 +37,8 @@ DIMPOOL = {
     "Y": dict(letter="t", name="time", items=[1700, 2000, 2300], dtype="int"),
     "A": dict(letter="a", name="age", items=[0, 1, 2], dtype="int"),       # small integers: values can coincide with items
     "Z": dict(letter="z", name="zero class", items=[0], dtype="int"),     # a single item that is at the same time a plausible value
+    # text items that look like numbers: CSV text brings them back as integers, the declared type turns them into text again
+    "N": dict(letter="n", name="size class", items=["10", "20", "35"], dtype="str"),
 }
 
 
